@@ -127,6 +127,30 @@ Proof.
   erewrite map_nth_error; [|exact H]. reflexivity.
 Qed.
 
+(* ---- the unsigned cast of speed_ms *)
+Lemma rate_limited_weaken s s' l : s <= s' -> rate_limited s' l -> rate_limited s l.
+Proof. intros Hle H l1 t1 l2 t2 E Hin Hpos. specialize (H l1 t1 l2 t2 E Hin Hpos). lia. Qed.
+
+Lemma ulong_cast_ge W speed : 0 <= W -> speed < 2 ^ W -> 0 <= ulong_cast W speed /\ speed <= ulong_cast W speed.
+Proof.
+  intros HW Hs. unfold ulong_cast. assert (0 < 2 ^ W) by (apply Z.pow_pos_nonneg; lia).
+  pose proof (Z.mod_pos_bound speed (2 ^ W) ltac:(lia)) as B.
+  destruct (Z_lt_le_dec speed 0); [lia|]. rewrite Z.mod_small by lia. lia.
+Qed.
+
+Lemma ulong_cast_id W speed : 0 <= speed < 2 ^ W -> ulong_cast W speed = speed.
+Proof. intro H. unfold ulong_cast. apply Z.mod_small. exact H. Qed.
+
+(* every speed_ms below 2^W, negative ones included: steps are at least speed_ms apart (a negative
+   speed_ms is cast to a huge period: after the first step with the clock running no further step) *)
+Lemma rate_limit_device_emit W sty cols row text speed lp nows : 0 <= W -> speed < 2 ^ W -> tick_times_ok nows ->
+  rate_limited speed (step_times (snd (drun1 sty cols (fst (dstart_emit W sty cols row text speed lp)) nows))).
+Proof.
+  intros HW Hs Ht. destruct (ulong_cast_ge W speed HW Hs) as [H0 Hle].
+  eapply rate_limited_weaken; [exact Hle|]. unfold dstart_emit.
+  apply rate_limit_device; assumption.
+Qed.
+
 (* non-vacuity: two animations sharing an 8-column display *)
 Lemma ex_device_two_animations :
   let calls := [(Scroll, 0, [65; 66], 0, true); (Blink, 1, [72; 105], 100, false)] in
